@@ -171,34 +171,325 @@ pub fn many1<'a, O, F: Fn(&'a [u8]) -> IResult<&'a [u8], O>>(p: F) -> (f: impl F
             f.ensures((i,), r) && satisfies(p, den) ==> m1_res(den, i, viewed(r)),
 { move |i: &'a [u8]| Err(NomErr { k: 0 }) }
 
-// ------------------------------------------------------------------ the lexers (assumed: functions of the input, consume a prefix)
-pub uninterp spec fn lx_attrdesc(i: Seq<u8>) -> Option<int>;          // attributedescription: matched length
-pub uninterp spec fn lx_attrtype(i: Seq<u8>) -> Option<int>;          // attributetype (matching rule id): matched length
-pub uninterp spec fn lx_unescaped(i: Seq<u8>) -> Option<(int, Seq<u8>)>; // assertion value: consumed length, un-escaped bytes
+// ------------------------------------------------------------------ more of nom, for the lexers
+// nom::character::{is_alphabetic, is_alphanumeric}: ASCII classes
+pub open spec fn is_digit(c: u8) -> bool { 0x30 <= c <= 0x39 }
+pub open spec fn is_alpha(c: u8) -> bool { (0x41 <= c <= 0x5a) || (0x61 <= c <= 0x7a) }
+pub open spec fn is_anh(c: u8) -> bool { is_alpha(c) || is_digit(c) || c == 0x2d }
+pub open spec fn p_digit() -> spec_fn(u8) -> bool { |c: u8| is_digit(c) }
+pub open spec fn p_anh() -> spec_fn(u8) -> bool { |c: u8| is_anh(c) }
+#[verifier::external_body]
+pub fn is_alphabetic(c: u8) -> (b: bool) ensures b == is_alpha(c) { unimplemented!() }
+#[verifier::external_body]
+pub fn is_alphanumeric(c: u8) -> (b: bool) ensures b == (is_alpha(c) || is_digit(c)) { unimplemented!() }
+// the longest prefix on which a predicate holds
+pub open spec fn run(i: Seq<u8>, p: spec_fn(u8) -> bool) -> int decreases i.len() {
+    if i.len() > 0 && p(i[0]) { 1 + run(i.skip(1), p) } else { 0 }
+}
+pub open spec fn run_rel(s: Seq<u8>, p: spec_fn(u8) -> bool, k: int) -> bool {
+    0 <= k <= s.len() && (forall|j: int| 0 <= j < k ==> p(#[trigger] s[j])) && (k < s.len() ==> !p(s[k]))
+}
+pub proof fn lemma_run_bounds(i: Seq<u8>, p: spec_fn(u8) -> bool)
+    ensures run_rel(i, p, run(i, p)),
+    decreases i.len(),
+{
+    if i.len() > 0 && p(i[0]) {
+        lemma_run_bounds(i.skip(1), p);
+        assert forall|j: int| 0 <= j < run(i, p) implies p(#[trigger] i[j]) by { if j > 0 { assert(i[j] == i.skip(1)[j - 1]); } }
+        if run(i, p) < i.len() { assert(i[run(i, p)] == i.skip(1)[run(i, p) - 1]); }
+    }
+}
+pub proof fn lemma_run_unique(i: Seq<u8>, p: spec_fn(u8) -> bool, k: int)
+    requires run_rel(i, p, k),
+    ensures run(i, p) == k,
+    decreases i.len(),
+{
+    if k == 0 { } else {
+        assert(p(i[0]));
+        assert forall|j: int| 0 <= j < k - 1 implies p(#[trigger] i.skip(1)[j]) by { assert(i.skip(1)[j] == i[j + 1]); }
+        if k - 1 < i.skip(1).len() { assert(i.skip(1)[k - 1] == i[k]); }
+        lemma_run_unique(i.skip(1), p, k - 1);
+    }
+}
+// number::complete::be_u8: one byte
+#[verifier::external_body]
+pub fn be_u8<'a>(i: &'a [u8]) -> (r: IResult<&'a [u8], u8>)
+    ensures if i@.len() >= 1 { r matches Ok(p) && p.0@ == i@.skip(1) && p.1 == i@[0] } else { r is Err }
+{ unimplemented!() }
+// character::complete::digit1: one or more ASCII digits
+#[verifier::external_body]
+pub fn digit1<'a>(i: &'a [u8]) -> (r: IResult<&'a [u8], &'a [u8]>)
+    ensures ({ let k = run(i@, p_digit()); if k >= 1 { r matches Ok(p) && p.0@ == i@.skip(k) && p.1@ == i@.take(k) } else { r is Err } })
+{ unimplemented!() }
+// bytes::complete::take_while / take_while1: the longest prefix on which the predicate holds (take_while1: at least one byte)
+pub open spec fn tw_rel<'a, F: Fn(u8) -> bool>(cond: F, i: &'a [u8], r: IResult<&'a [u8], &'a [u8]>, min: int) -> bool {
+    exists|k: int| #[trigger] wit(k) && 0 <= k <= i@.len()
+        && (forall|j: int| 0 <= j < k ==> cond.ensures((#[trigger] i@[j],), true))
+        && (k < i@.len() ==> cond.ensures((i@[k],), false))
+        && (if k >= min { r matches Ok(p) && p.0@ == i@.skip(k) && p.1@ == i@.take(k) } else { r is Err })
+}
+#[verifier::external_body]
+pub fn take_while<'a, F: Fn(u8) -> bool>(cond: F) -> (f: impl Fn(&'a [u8]) -> IResult<&'a [u8], &'a [u8]>)
+    ensures
+        forall|i: &'a [u8]| (forall|c: u8| cond.requires((c,))) ==> #[trigger] f.requires((i,)),
+        forall|i: &'a [u8], r: IResult<&'a [u8], &'a [u8]>| #[trigger] f.ensures((i,), r) ==> tw_rel(cond, i, r, 0),
+{ move |i: &'a [u8]| Err(NomErr { k: 0 }) }
+#[verifier::external_body]
+pub fn take_while1<'a, F: Fn(u8) -> bool>(cond: F) -> (f: impl Fn(&'a [u8]) -> IResult<&'a [u8], &'a [u8]>)
+    ensures
+        forall|i: &'a [u8]| (forall|c: u8| cond.requires((c,))) ==> #[trigger] f.requires((i,)),
+        forall|i: &'a [u8], r: IResult<&'a [u8], &'a [u8]>| #[trigger] f.ensures((i,), r) ==> tw_rel(cond, i, r, 1),
+{ move |i: &'a [u8]| Err(NomErr { k: 0 }) }
+// combinator::verify: keep the value only if the predicate holds.  nom's generic `verify` goes through
+// core::borrow::Borrow; the two instances used in src/filter.rs are given as monomorphic functions (recorded substitution
+// of the name): verify_slice for O1 = &[u8] (predicate on &[u8]), verify_val for O1 = u8 (predicate on &u8)
+#[verifier::external_body]
+pub fn verify_slice<'a, F: Fn(&'a [u8]) -> IResult<&'a [u8], &'a [u8]>, G: Fn(&'a [u8]) -> bool>(p: F, g: G) -> (f: impl Fn(&'a [u8]) -> IResult<&'a [u8], &'a [u8]>)
+    ensures
+        forall|i: &'a [u8]| (forall|j: &'a [u8]| p.requires((j,))) && (forall|j: &'a [u8], pr: IResult<&'a [u8], &'a [u8]>| p.ensures((j,), pr) && pr is Ok ==> g.requires((pr->Ok_0.1,))) ==> #[trigger] f.requires((i,)),
+        forall|i: &'a [u8], r: IResult<&'a [u8], &'a [u8]>| #[trigger] f.ensures((i,), r) ==>
+            exists|pr: IResult<&'a [u8], &'a [u8]>| p.ensures((i,), pr) && (match pr {
+                Err(_) => r is Err,
+                Ok(q) => exists|b: bool| g.ensures((q.1,), b) && (if b { r == pr } else { r is Err }) }),
+{ move |i: &'a [u8]| Err(NomErr { k: 0 }) }
+#[verifier::external_body]
+pub fn verify_val<'a, F: Fn(&'a [u8]) -> IResult<&'a [u8], u8>, G: Fn(&u8) -> bool>(p: F, g: G) -> (f: impl Fn(&'a [u8]) -> IResult<&'a [u8], u8>)
+    ensures
+        forall|i: &'a [u8]| (forall|j: &'a [u8]| p.requires((j,))) && (forall|c: &u8| g.requires((c,))) ==> #[trigger] f.requires((i,)),
+        forall|i: &'a [u8], r: IResult<&'a [u8], u8>| #[trigger] f.ensures((i,), r) ==>
+            exists|pr: IResult<&'a [u8], u8>| p.ensures((i,), pr) && (match pr {
+                Err(_) => r is Err,
+                Ok(q) => exists|b: bool| g.ensures((&q.1,), b) && (if b { r == pr } else { r is Err }) }),
+{ move |i: &'a [u8]| Err(NomErr { k: 0 }) }
+// combinator::recognize: the consumed prefix as the value
+#[verifier::external_body]
+pub fn recognize<'a, O, F: Fn(&'a [u8]) -> IResult<&'a [u8], O>>(p: F) -> (f: impl Fn(&'a [u8]) -> IResult<&'a [u8], &'a [u8]>)
+    ensures
+        forall|i: &'a [u8]| (forall|j: &'a [u8]| p.requires((j,))) ==> #[trigger] f.requires((i,)),
+        forall|i: &'a [u8], r: IResult<&'a [u8], &'a [u8]>| #[trigger] f.ensures((i,), r) ==>
+            exists|pr: IResult<&'a [u8], O>| p.ensures((i,), pr) && (match pr {
+                Err(_) => r is Err,
+                Ok(q) => r matches Ok(u) && u.0 == q.0 && u.1@ == i@.take(i@.len() - q.0@.len()) }),
+{ move |i: &'a [u8]| Err(NomErr { k: 0 }) }
+// multi::fold_many0: apply the parser until it fails, folding the values; stated over relations that the parser, the
+// initial-value closure and the folding closure satisfy (all three are anonymous values at the call site)
+pub open spec fn fm_loop<'a, O, R>(den: spec_fn(&'a [u8], IResult<&'a [u8], O>) -> bool, gden: spec_fn(R, O, R) -> bool, i: &'a [u8], acc: R, r: IResult<&'a [u8], R>) -> bool
+    decreases i@.len(), 1nat
+{
+    exists|pr: IResult<&'a [u8], O>| #[trigger] wit(pr) && den(i, pr) && (match pr {
+        Err(_) => r == Ok::<(&'a [u8], R), NomErr>((i, acc)),
+        Ok(q) => if q.0@.len() >= i@.len() { r is Err } else { exists|acc2: R| #[trigger] wit(acc2) && fm_next(den, gden, i, acc, r, q, acc2) } })
+}
+pub open spec fn fm_next<'a, O, R>(den: spec_fn(&'a [u8], IResult<&'a [u8], O>) -> bool, gden: spec_fn(R, O, R) -> bool, i: &'a [u8], acc: R, r: IResult<&'a [u8], R>, q: (&'a [u8], O), acc2: R) -> bool
+    decreases i@.len(), 0nat
+{
+    q.0@.len() < i@.len() && gden(acc, q.1, acc2) && fm_loop(den, gden, q.0, acc2, r)
+}
+pub open spec fn fm_res<'a, O, R>(den: spec_fn(&'a [u8], IResult<&'a [u8], O>) -> bool, iden: spec_fn(R) -> bool, gden: spec_fn(R, O, R) -> bool, i: &'a [u8], r: IResult<&'a [u8], R>) -> bool {
+    exists|a0: R| #[trigger] wit(a0) && iden(a0) && fm_loop(den, gden, i, a0, r)
+}
+#[verifier::external_body]
+pub fn fold_many0<'a, O, R, F: Fn(&'a [u8]) -> IResult<&'a [u8], O>, H: Fn() -> R, G: Fn(R, O) -> R>(p: F, init: H, g: G) -> (f: impl Fn(&'a [u8]) -> IResult<&'a [u8], R>)
+    ensures
+        forall|i: &'a [u8]| (forall|j: &'a [u8]| p.requires((j,))) && init.requires(()) && (forall|a: R, o: O| g.requires((a, o))) ==> #[trigger] f.requires((i,)),
+        forall|i: &'a [u8], r: IResult<&'a [u8], R>, den: spec_fn(&'a [u8], IResult<&'a [u8], O>) -> bool, iden: spec_fn(R) -> bool, gden: spec_fn(R, O, R) -> bool|
+            #![trigger f.ensures((i,), r), wit(den), wit(iden), wit(gden)]
+            f.ensures((i,), r) && satisfies(p, den) && (forall|a: R| #[trigger] init.ensures((), a) ==> iden(a))
+                && (forall|a: R, o: O, a2: R| #[trigger] g.ensures((a, o), a2) ==> gden(a, o, a2)) ==> fm_res(den, iden, gden, i, r),
+{ move |i: &'a [u8]| Err(NomErr { k: 0 }) }
+
+// ------------------------------------------------------------------ the lexers: RFC 4512 1.4 / RFC 4515 3 as functions of the input
+pub open spec fn s_dot() -> Seq<u8> { seq![0x2eu8] }   // "."
+pub open spec fn s_semi() -> Seq<u8> { seq![0x3bu8] }   // ";"
+pub proof fn lemma_lits_lex() ensures [46u8]@ == s_dot(), [59u8]@ == s_semi() { assert([46u8]@ =~= s_dot()); assert([59u8]@ =~= s_semi()); }
+// number = DIGIT / ( LDIGIT 1*DIGIT ): no superfluous leading zero
+pub open spec fn lxd_number(i: Seq<u8>) -> Option<int> {
+    let k = run(i, p_digit());
+    if k >= 1 && (k == 1 || i[0] != 0x30) { Some(k) } else { None }
+}
+// descr = keystring = leadkeychar *keychar
+pub open spec fn lxd_descr(i: Seq<u8>) -> Option<int> {
+    if i.len() > 0 && is_alpha(i[0]) { Some(1 + run(i.skip(1), p_anh())) } else { None }
+}
+// numericoid = number *( DOT number )   (RFC 4512 has 1*( DOT number ); a lone number is accepted by the library)
+pub open spec fn lxd_dotnums(i: Seq<u8>) -> int decreases i.len() {
+    if !starts_with(i, s_dot()) { 0 } else {
+        match lxd_number(i.skip(1)) {
+            None => 0,
+            Some(m) => if m < 0 || 1 + m > i.len() { 0 } else { 1 + m + lxd_dotnums(i.skip(1 + m)) },
+        }
+    }
+}
+pub open spec fn lxd_numericoid(i: Seq<u8>) -> Option<int> {
+    match lxd_number(i) { Some(k) => if 0 <= k <= i.len() { Some(k + lxd_dotnums(i.skip(k))) } else { None }, None => None }
+}
+// attributetype = oid = numericoid / descr
+pub open spec fn lxd_attrtype(i: Seq<u8>) -> Option<int> {
+    match lxd_numericoid(i) { Some(n) => Some(n), None => lxd_descr(i) }
+}
+// attributedescription = attributetype options ; options = *( SEMI option ) ; option = 1*keychar
+pub open spec fn lxd_options(i: Seq<u8>) -> int decreases i.len() {
+    if !starts_with(i, s_semi()) { 0 } else {
+        let k = run(i.skip(1), p_anh());
+        if k < 1 || 1 + k > i.len() { 0 } else { 1 + k + lxd_options(i.skip(1 + k)) }
+    }
+}
+pub open spec fn lxd_attrdesc(i: Seq<u8>) -> Option<int> {
+    match lxd_attrtype(i) { Some(n) => if 0 <= n <= i.len() { Some(n + lxd_options(i.skip(n))) } else { None }, None => None }
+}
+// assertion value: every byte other than NUL ( ) * up to the first of those; `\` + two hex digits stands for that byte;
+// an incomplete or non-hex escape is an error
+pub open spec fn hexval(c: u8) -> Option<u8> {
+    if 0x30 <= c <= 0x39 { Some((c - 0x30) as u8) } else if 0x61 <= c <= 0x66 { Some((c - 0x61 + 10) as u8) } else if 0x41 <= c <= 0x46 { Some((c - 0x41 + 10) as u8) } else { None }
+}
+//@item file=src/filter.rs kind=enum name=Unescaper
+pub open spec fn wf_un(u: Unescaper) -> bool { u matches Unescaper::WantSecond(p) ==> p < 16 }
+pub open spec fn feed_spec(u: Unescaper, c: u8) -> Unescaper {
+    match u {
+        Unescaper::Error => Unescaper::Error,
+        Unescaper::WantFirst => match hexval(c) { Some(h) => Unescaper::WantSecond(h), None => Unescaper::Error },
+        Unescaper::WantSecond(p) => match hexval(c) { Some(h) => Unescaper::Value((p * 16 + h) as u8), None => Unescaper::Error },
+        Unescaper::Value(_) => if c == 0x5c { Unescaper::WantFirst } else { Unescaper::Value(c) },
+    }
+}
+impl Unescaper {
+    // KX-escape::feed_table_complete (Kani on the real code: every state x byte, partial < 16) -- the same table
+    #[verifier::external_body]
+    pub fn feed(&self, c: u8) -> (r: Unescaper) ensures wf_un(*self) ==> r == feed_spec(*self, c) && wf_un(r) { unimplemented!() }
+}
+pub open spec fn value_char(c: u8) -> bool { !(c == 0 || c == 0x28 || c == 0x29 || c == 0x2a) }
+pub open spec fn scan(i: Seq<u8>, st: Unescaper, acc: Seq<u8>) -> (int, Unescaper, Seq<u8>) decreases i.len() {
+    if i.len() > 0 && value_char(i[0]) {
+        let st2 = feed_spec(st, i[0]);
+        let acc2 = if st2 is Value { acc.push(st2->Value_0) } else { acc };
+        let r = scan(i.skip(1), st2, acc2);
+        (1 + r.0, r.1, r.2)
+    } else { (0int, st, acc) }
+}
+pub open spec fn lxd_unescaped(i: Seq<u8>) -> Option<(int, Seq<u8>)> {
+    let r = scan(i, Unescaper::Value(0), Seq::<u8>::empty());
+    if r.1 is Value { Some((r.0, r.2)) } else { None }
+}
+// the names the grammar denotations use (opaque there: the productions only need "a function of the input")
+#[verifier::opaque]
+pub open spec fn lx_attrdesc(i: Seq<u8>) -> Option<int> { lxd_attrdesc(i) }
+#[verifier::opaque]
+pub open spec fn lx_attrtype(i: Seq<u8>) -> Option<int> { lxd_attrtype(i) }
+#[verifier::opaque]
+pub open spec fn lx_unescaped(i: Seq<u8>) -> Option<(int, Seq<u8>)> { lxd_unescaped(i) }
 pub open spec fn recognised<'a>(r: IResult<&'a [u8], &'a [u8]>, i: &'a [u8], d: Option<int>) -> bool {
     match d { Some(n) => 0 <= n <= i@.len() && (r matches Ok(p) && p.0@ == i@.skip(n) && p.1@ == i@.take(n)), None => r is Err }
 }
 pub open spec fn valued<'a>(r: IResult<&'a [u8], Vec<u8>>, i: &'a [u8], d: Option<(int, Seq<u8>)>) -> bool {
     match d { Some(d) => 0 <= d.0 <= i@.len() && (r matches Ok(p) && p.0@ == i@.skip(d.0) && p.1@ == d.1), None => r is Err }
 }
-#[verifier::external_body]
-pub fn attributedescription<'a>(i: &'a [u8]) -> (r: IResult<&'a [u8], &'a [u8]>) ensures recognised(r, i, lx_attrdesc(i@)) { unimplemented!() }
-#[verifier::external_body]
-pub fn attributetype<'a>(i: &'a [u8]) -> (r: IResult<&'a [u8], &'a [u8]>) ensures recognised(r, i, lx_attrtype(i@)) { unimplemented!() }
-#[verifier::external_body]
-pub fn unescaped<'a>(i: &'a [u8]) -> (r: IResult<&'a [u8], Vec<u8>>) ensures valued(r, i, lx_unescaped(i@)) { unimplemented!() }
+// relations satisfied by the anonymous element parsers / closures of the lexers, and the induction lemmas over many0 / fold_many0
+pub open spec fn skipped<'a, O>(r: IResult<&'a [u8], Seq<O>>, i: &'a [u8], n: int) -> bool {
+    0 <= n <= i@.len() && (r matches Ok(p) && p.0@ == i@.skip(n))
+}
+pub open spec fn den_dotnum<'a>() -> spec_fn(&'a [u8], IResult<&'a [u8], &'a [u8]>) -> bool {
+    |j: &'a [u8], x: IResult<&'a [u8], &'a [u8]>|
+        if starts_with(j@, s_dot()) {
+            match lxd_number(j@.skip(1)) {
+                Some(m) => 0 <= m <= j@.len() - 1 && (x matches Ok(p) && p.0@ == j@.skip(1).skip(m)),
+                None => x is Err,
+            }
+        } else { x is Err }
+}
+pub proof fn lemma_dotnums<'a>(i: &'a [u8], r: IResult<&'a [u8], Seq<&'a [u8]>>)
+    requires m0_res(den_dotnum(), i, r),
+    ensures skipped(r, i, lxd_dotnums(i@)),
+    decreases i@.len(),
+{
+    let den = den_dotnum();
+    let pr = choose|pr: IResult<&'a [u8], &'a [u8]>| #[trigger] wit(pr) && m0_step(den, i, r, pr);
+    match pr {
+        Err(_) => { assert(i@.skip(0) =~= i@); }
+        Ok(q) => {
+            let m = lxd_number(i@.skip(1))->0;
+            assert(q.0@ =~= i@.skip(1 + m));
+            if q.0@.len() >= i@.len() { } else {
+                let rr = choose|rr: IResult<&'a [u8], Seq<&'a [u8]>>| #[trigger] wit(rr) && m0_tail(den, i, r, q, rr);
+                lemma_dotnums(q.0, rr);
+                match rr {
+                    Err(_) => {}
+                    Ok(t) => { assert(t.0@ =~= i@.skip(1 + m + lxd_dotnums(i@.skip(1 + m)))); }
+                }
+            }
+        }
+    }
+}
+pub open spec fn den_option<'a>() -> spec_fn(&'a [u8], IResult<&'a [u8], &'a [u8]>) -> bool {
+    |j: &'a [u8], x: IResult<&'a [u8], &'a [u8]>|
+        if starts_with(j@, s_semi()) {
+            exists|k: int| #[trigger] wit(k) && run_rel(j@.skip(1), p_anh(), k) && (if k >= 1 { x matches Ok(p) && p.0@ == j@.skip(1).skip(k) } else { x is Err })
+        } else { x is Err }
+}
+pub proof fn lemma_options<'a>(i: &'a [u8], r: IResult<&'a [u8], Seq<&'a [u8]>>)
+    requires m0_res(den_option(), i, r),
+    ensures skipped(r, i, lxd_options(i@)),
+    decreases i@.len(),
+{
+    let den = den_option();
+    let pr = choose|pr: IResult<&'a [u8], &'a [u8]>| #[trigger] wit(pr) && m0_step(den, i, r, pr);
+    if starts_with(i@, s_semi()) {
+        let k = choose|k: int| #[trigger] wit(k) && run_rel(i@.skip(1), p_anh(), k) && (if k >= 1 { pr matches Ok(p) && p.0@ == i@.skip(1).skip(k) } else { pr is Err });
+        lemma_run_unique(i@.skip(1), p_anh(), k);
+        match pr {
+            Err(_) => { assert(i@.skip(0) =~= i@); }
+            Ok(q) => {
+                assert(q.0@ =~= i@.skip(1 + k));
+                if q.0@.len() >= i@.len() { } else {
+                    let rr = choose|rr: IResult<&'a [u8], Seq<&'a [u8]>>| #[trigger] wit(rr) && m0_tail(den, i, r, q, rr);
+                    lemma_options(q.0, rr);
+                    match rr {
+                        Err(_) => {}
+                        Ok(t) => { assert(t.0@ =~= i@.skip(1 + k + lxd_options(i@.skip(1 + k)))); }
+                    }
+                }
+            }
+        }
+    } else {
+        assert(i@.skip(0) =~= i@);
+    }
+}
+pub open spec fn den_vchar<'a>() -> spec_fn(&'a [u8], IResult<&'a [u8], u8>) -> bool {
+    |j: &'a [u8], x: IResult<&'a [u8], u8>| if j@.len() > 0 && value_char(j@[0]) { x matches Ok(p) && p.0@ == j@.skip(1) && p.1 == j@[0] } else { x is Err }
+}
+pub open spec fn iden_un() -> spec_fn((Unescaper, Vec<u8>)) -> bool { |a: (Unescaper, Vec<u8>)| a.0 == Unescaper::Value(0) && a.1@ == Seq::<u8>::empty() }
+pub open spec fn gden_un() -> spec_fn((Unescaper, Vec<u8>), u8, (Unescaper, Vec<u8>)) -> bool {
+    |a: (Unescaper, Vec<u8>), c: u8, a2: (Unescaper, Vec<u8>)| wf_un(a.0) ==> (a2.0 == feed_spec(a.0, c) && wf_un(a2.0) && a2.1@ == (if a2.0 is Value { a.1@.push(a2.0->Value_0) } else { a.1@ }))
+}
+pub open spec fn scanned<'a>(r: IResult<&'a [u8], (Unescaper, Vec<u8>)>, i: &'a [u8], st: Unescaper, acc: Seq<u8>) -> bool {
+    let s = scan(i@, st, acc);
+    0 <= s.0 <= i@.len() && (r matches Ok(p) && p.0@ == i@.skip(s.0) && p.1.0 == s.1 && p.1.1@ == s.2)
+}
+pub proof fn lemma_scan<'a>(i: &'a [u8], acc: (Unescaper, Vec<u8>), r: IResult<&'a [u8], (Unescaper, Vec<u8>)>)
+    requires fm_loop(den_vchar(), gden_un(), i, acc, r), wf_un(acc.0),
+    ensures scanned(r, i, acc.0, acc.1@),
+    decreases i@.len(),
+{
+    let den = den_vchar();
+    let gden = gden_un();
+    let pr = choose|pr: IResult<&'a [u8], u8>| #[trigger] wit(pr) && den(i, pr) && (match pr {
+        Err(_) => r == Ok::<(&'a [u8], (Unescaper, Vec<u8>)), NomErr>((i, acc)),
+        Ok(q) => if q.0@.len() >= i@.len() { r is Err } else { exists|acc2: (Unescaper, Vec<u8>)| #[trigger] wit(acc2) && fm_next(den, gden, i, acc, r, q, acc2) } });
+    match pr {
+        Err(_) => { assert(i@.skip(0) =~= i@); }
+        Ok(q) => {
+            let acc2 = choose|acc2: (Unescaper, Vec<u8>)| #[trigger] wit(acc2) && fm_next(den, gden, i, acc, r, q, acc2);
+            lemma_scan(q.0, acc2, r);
+            let s2 = scan(i@.skip(1), acc2.0, acc2.1@);
+            assert(r->Ok_0.0@ =~= i@.skip(1 + s2.0));
+        }
+    }
+}
 // filtertag on the three operators: KX-escape::filtertag_numbers (Kani, real code, complete)
 #[verifier::external_body]
 pub fn filtertag(filterop: &[u8]) -> (r: u64)
     requires filterop@ == s_gte() || filterop@ == s_lte() || filterop@ == s_apx(),
     ensures r == (if filterop@ == s_gte() { 5u64 } else if filterop@ == s_lte() { 6u64 } else { 8u64 }),
 { unimplemented!() }
-// extensible_tag: contract proved in unit V-filter-leaf (C08.extensible_match_assembly_rfc4511), restated over views
-#[verifier::external_body]
-pub fn extensible_tag(mrule: Option<&[u8]>, attr: Option<&[u8]>, value: Vec<u8>, dn: bool) -> (r: Tag)
-    ensures tree(r) == mra(match mrule { Some(s) => Some(s@), None => None }, match attr { Some(s) => Some(s@), None => None }, value@, dn)
-{ unimplemented!() }
-
 // ------------------------------------------------------------------ RFC 4515 section 3 as functions of the input
 // A production's denotation: None = no match; Some((n, t)) = consumes n bytes and yields the RFC 4511 Filter tree t.
 // Alternatives are ordered (first match wins), as in a PEG; that this reading accepts exactly the ABNF's language is
@@ -255,10 +546,11 @@ pub open spec fn d_non_eq(i: Seq<u8>) -> Option<(int, T)> {
 }
 // extensible = ( attr [dnattrs] [matchingrule] COLON EQUALS assertionvalue ) / ( [dnattrs] matchingrule COLON EQUALS assertionvalue )
 //   -> extensibleMatch [9] MatchingRuleAssertion { matchingRule [1] OPTIONAL, type [2] OPTIONAL, matchValue [3], dnAttributes [4] DEFAULT FALSE }
-pub open spec fn mra(rule: Option<Seq<u8>>, attr: Option<Seq<u8>>, value: Seq<u8>, dn: bool) -> T {
-    t_ctx_c(9, (match rule { Some(s) => seq![t_ctx_p(1, s)], None => Seq::<T>::empty() }) + (match attr { Some(s) => seq![t_ctx_p(2, s)], None => Seq::<T>::empty() })
-        + seq![t_ctx_p(3, value)] + (if dn { seq![T::P(TagClass::Context, 4, seq![0xffu8])] } else { Seq::<T>::empty() }))
+pub open spec fn mra_kids(rule: Option<Seq<u8>>, attr: Option<Seq<u8>>, value: Seq<u8>, dn: bool) -> Seq<T> {
+    (match rule { Some(s) => seq![t_ctx_p(1, s)], None => Seq::<T>::empty() }) + (match attr { Some(s) => seq![t_ctx_p(2, s)], None => Seq::<T>::empty() })
+        + seq![t_ctx_p(3, value)] + (if dn { seq![T::P(TagClass::Context, 4, seq![0xffu8])] } else { Seq::<T>::empty() })
 }
+pub open spec fn mra(rule: Option<Seq<u8>>, attr: Option<Seq<u8>>, value: Seq<u8>, dn: bool) -> T { t_ctx_c(9, mra_kids(rule, attr, value, dn)) }
 pub open spec fn d_attr_dn_mrule(i: Seq<u8>) -> Option<(int, T)> {
     match lx_attrdesc(i) {
         None => None,
@@ -584,4 +876,37 @@ pub proof fn lemma_mv_items<'a>(i: &'a [u8], r: IResult<&'a [u8], Seq<Tag>>)
             }
         }
     }
+}
+
+// ------------------------------------------------------------------ the alternatives of filtexpr / filtercomp are disjoint
+// (an item starts with a letter, a digit or a colon; the others with `(`, `&`, `|`, `!`), so their order is immaterial
+pub proof fn lemma_item_first_byte(i: Seq<u8>)
+    requires d_item(i) is Some,
+    ensures i.len() > 0 && (is_alpha(i[0]) || is_digit(i[0]) || i[0] == 0x3a),
+{
+    reveal(lx_attrdesc);
+    if lx_attrdesc(i) is Some {
+        if lxd_numericoid(i) is Some {
+            lemma_run_bounds(i, p_digit());
+        }
+    } else {
+        assert(d_dn_mrule(i) is Some);
+        if starts_with(i, s_dn()) { assert(i[0] == i.subrange(0, 3)[0]); } else { assert(i.skip(0) =~= i); assert(i[0] == i.subrange(0, 1)[0]); }
+    }
+}
+pub proof fn lemma_alternatives_disjoint(i: Seq<u8>)
+    ensures
+        d_item(i) is Some ==> !starts_with(i, s_lp()) && !starts_with(i, s_amp()) && !starts_with(i, s_bar()) && !starts_with(i, s_bang()),
+        !(starts_with(i, s_amp()) && starts_with(i, s_bar())), !(starts_with(i, s_amp()) && starts_with(i, s_bang())), !(starts_with(i, s_bar()) && starts_with(i, s_bang())),
+{
+    if d_item(i) is Some {
+        lemma_item_first_byte(i);
+        if starts_with(i, s_lp()) { assert(i[0] == i.subrange(0, 1)[0]); }
+        if starts_with(i, s_amp()) { assert(i[0] == i.subrange(0, 1)[0]); }
+        if starts_with(i, s_bar()) { assert(i[0] == i.subrange(0, 1)[0]); }
+        if starts_with(i, s_bang()) { assert(i[0] == i.subrange(0, 1)[0]); }
+    }
+    if starts_with(i, s_amp()) { assert(i[0] == i.subrange(0, 1)[0]); }
+    if starts_with(i, s_bar()) { assert(i[0] == i.subrange(0, 1)[0]); }
+    if starts_with(i, s_bang()) { assert(i[0] == i.subrange(0, 1)[0]); }
 }
